@@ -97,3 +97,35 @@ package newick
 //@   requires forall x ref, j int :: 0 <= j && j < len(x.Children) ==> x.Children[j] != nil
 //@   ensures result == nil <==> !w.failed
 //@   ensures result == nil || ioErr(result)
+
+// ---- traversal (C18, C19) ----
+// tsize/psum/preN/firstN/postN (see /verif/specs/20newick.spec) number the
+// nodes of the input tree; the requires clauses tie them to the heap and say
+// that the structure is a finite tree with non-nil children. preN / postN are
+// by construction the positions in the classic recursive pre-/post-order with
+// children visited in slice order.
+
+//@ func Node.traverse
+//@   props C18 C19
+//@   yields Y
+//@   readonly-heap
+//@   requires n != nil
+//@   requires forall x ref, j int :: 0 <= j && j < len(x.Children) ==> x.Children[j] != nil
+//@   requires forall x ref :: {tsize(x)} x != nil ==> tsize(x) >= 1 && tsize(x) == 1 + psum(x, len(x.Children))
+//@   requires forall x ref :: {psum(x, 0)} psum(x, 0) == 0
+//@   requires forall x ref, j int :: {psum(x, j)} x != nil && 1 <= j && j <= len(x.Children) ==> psum(x, j) == psum(x, j-1) + tsize(x.Children[j-1])
+//@   requires forall x ref, j int :: {x.Children[j]} x != nil && 0 <= j && j < len(x.Children) ==>
+//@              preN(x.Children[j]) == preN(x) + 1 + psum(x, j) && firstN(x.Children[j]) == firstN(x) + psum(x, j)
+//@   requires forall x ref :: {postN(x)} x != nil ==> postN(x) == firstN(x) + tsize(x) - 1
+//@   requires preN(n) == 0 && firstN(n) == 0
+//@   ensures !stopped ==> len(Y) == tsize(n)
+//@   ensures forall t int :: 0 <= t && t < len(Y) ==> Y[t] != nil && (pre ? preN(Y[t]) : postN(Y[t])) == t
+//@   loop 1
+//@     let d := len(stack) - 1
+//@     invariant forall k int :: 0 <= k && k <= d ==> stack[k].n != nil && 0 <= stack[k].i && stack[k].i <= len(stack[k].n.Children)
+//@     invariant forall k int :: 0 <= k && k < d ==> stack[k].i >= 1 && stack[k+1].n == stack[k].n.Children[stack[k].i - 1]
+//@     invariant d >= 0 ==> stack[0].n == n
+//@     invariant d >= 0 && pre ==> len(Y) == preN(stack[d].n) + (stack[d].i == 0 ? 0 : 1 + psum(stack[d].n, stack[d].i))
+//@     invariant d >= 0 && !pre ==> len(Y) == firstN(stack[d].n) + psum(stack[d].n, stack[d].i)
+//@     invariant d < 0 ==> len(Y) == tsize(n)
+//@     invariant forall t int :: 0 <= t && t < len(Y) ==> Y[t] != nil && (pre ? preN(Y[t]) : postN(Y[t])) == t
